@@ -215,3 +215,172 @@ Proof.
   - pose proof (unv_le (List.length g) []). lia.
   - rewrite E. discriminate.
 Qed.
+
+(* ---- the path-guarded mock walk is exponential on layered acyclic graphs ---------------------- *)
+Lemma dag2_edges d i : i <= d ->
+  edges_of (dag2 d) i = if i <? d then [(S i, true); (S i, true)] else [].
+Proof.
+  intros Hi. unfold edges_of, dag2.
+  rewrite nth_error_map.
+  assert (E : nth_error (seq 0 (S d)) i = Some i).
+  { rewrite (nth_error_nth' _ 0) by (rewrite seq_length; lia). rewrite seq_nth by lia. reflexivity. }
+  rewrite E. reflexivity.
+Qed.
+
+Lemma dag2_wf d : wf_graph (dag2 d).
+Proof.
+  intros n t b Hin. unfold dag2 at 1. rewrite map_length, seq_length.
+  destruct (le_lt_dec n d) as [Hle|Hgt].
+  - rewrite (dag2_edges d n Hle) in Hin. destruct (n <? d) eqn:E.
+    + apply Nat.ltb_lt in E. destruct Hin as [H|[H|[]]]; inversion H; lia.
+    + contradiction.
+  - unfold edges_of, dag2 in Hin. rewrite nth_error_map in Hin.
+    assert (E : nth_error (seq 0 (S d)) n = None) by (apply nth_error_None; rewrite seq_length; lia).
+    rewrite E in Hin. contradiction.
+Qed.
+
+Lemma mem_nat_below i path : (forall x, In x path -> x < i) -> mem_nat (S i) (i :: path) = false.
+Proof.
+  intros H. destruct (mem_nat (S i) (i :: path)) eqn:E; [|reflexivity].
+  apply mem_nat_In in E. destruct E as [E|E]; [lia|]. apply H in E. lia.
+Qed.
+
+(* exact count: 2^(m+1) - 2 assignments below a node that has m levels under it *)
+Lemma mock_path_dag2_level d : forall m i fuel path k,
+  i + m = d -> (forall x, In x path -> x < i) ->
+  mock_path fuel (dag2 d) path i = Some k -> k + 2 = 2 ^ (S m).
+Proof.
+  induction m as [|m IH]; intros i fuel path k Hd Hp Hk.
+  - destruct fuel as [|f]; [discriminate|]. cbn [mock_path] in Hk.
+    rewrite dag2_edges in Hk by lia.
+    assert (E : (i <? d) = false) by (apply Nat.ltb_ge; lia). rewrite E in Hk.
+    cbn in Hk. inversion Hk. reflexivity.
+  - destruct fuel as [|f]; [discriminate|]. cbn [mock_path] in Hk.
+    rewrite dag2_edges in Hk by lia.
+    assert (E : (i <? d) = true) by (apply Nat.ltb_lt; lia). rewrite E in Hk.
+    cbn [fold_left snd fst] in Hk. rewrite (mem_nat_below i path Hp) in Hk.
+    destruct (mock_path f (dag2 d) (i :: path) (S i)) as [j|] eqn:Ej; [|discriminate].
+    assert (Hj : j + 2 = 2 ^ (S m)).
+    { apply (IH (S i) f (i :: path) j); [lia| |exact Ej].
+      intros x [<-|Hx]; [lia|]. apply Hp in Hx. lia. }
+    inversion Hk. subst k. rewrite (Nat.pow_succ_r' 2 (S m)). lia.
+Qed.
+
+Theorem mock_path_dag2 d : exists k,
+  mock_path (S (List.length (dag2 d))) (dag2 d) [] 0 = Some k /\ k + 2 = 2 ^ (S d).
+Proof.
+  destruct (mock_path (S (List.length (dag2 d))) (dag2 d) [] 0) as [k|] eqn:E.
+  - exists k. split; [reflexivity|].
+    apply (mock_path_dag2_level d d 0 (S (List.length (dag2 d))) [] k); [lia| intros x [] | exact E].
+  - exfalso. apply (mock_path_terminates (dag2 d) 0 (dag2_wf d)); [|exact E].
+    unfold dag2. rewrite map_length, seq_length. lia.
+Qed.
+
+Corollary mock_path_dag2_exponential d k : 1 <= d ->
+  mock_path (S (List.length (dag2 d))) (dag2 d) [] 0 = Some k -> 2 ^ d <= k.
+Proof.
+  intros Hd Hk. destruct (mock_path_dag2 d) as [k' [E Hk']]. rewrite Hk in E. inversion E. subst k'.
+  rewrite Nat.pow_succ_r' in Hk'.
+  assert (2 <= 2 ^ d).
+  { destruct d as [|d']; [lia|]. rewrite Nat.pow_succ_r'. pose proof (Nat.pow_nonzero 2 d'). lia. }
+  lia.
+Qed.
+
+(* ---- the step-budgeted evaluation of the path-guarded walk ------------------------------------- *)
+Definition path_step (f : nat) (g : graph) (path' : list nat) :=
+  fun (acc : option nat) (e : nat * bool) =>
+    match acc with
+    | None => None
+    | Some k =>
+        if snd e then
+          (if mem_nat (fst e) path' then Some (k + 1)
+           else match mock_path f g path' (fst e) with
+                | Some j => Some (k + j + 1)
+                | None => None end)
+        else Some (k + 1)
+    end.
+Definition cost_step (f : nat) (lim : N) (g : graph) (path' : list nat) :=
+  fun (a : N) (e : nat * bool) =>
+    if (lim <? a)%N then a
+    else if snd e then
+           (if mem_nat (fst e) path' then (a + 1)%N
+            else mock_cost f lim g path' (fst e) (a + 1)%N)
+         else (a + 1)%N.
+
+Lemma mock_path_S f g path n :
+  mock_path (S f) g path n = fold_left (path_step f g (n :: path)) (edges_of g n) (Some 0).
+Proof. reflexivity. Qed.
+Lemma mock_cost_S f lim g path n acc :
+  mock_cost (S f) lim g path n acc = fold_left (cost_step f lim g (n :: path)) (edges_of g n) acc.
+Proof. reflexivity. Qed.
+
+Lemma path_fold_none f g p es : fold_left (path_step f g p) es None = None.
+Proof. induction es as [|e es IH]; cbn; auto. Qed.
+
+Lemma cost_fold_saturated f lim g p es : forall a, (lim < a)%N -> fold_left (cost_step f lim g p) es a = a.
+Proof.
+  induction es as [|e es IH]; intros a Ha; [reflexivity|]. cbn [fold_left].
+  assert (E : cost_step f lim g p a e = a).
+  { unfold cost_step. apply N.ltb_lt in Ha. now rewrite Ha. }
+  rewrite E. now apply IH.
+Qed.
+
+Lemma mock_cost_spec lim g : forall fuel path n k acc,
+  mock_path fuel g path n = Some k ->
+  ((acc + N.of_nat k <= lim)%N -> mock_cost fuel lim g path n acc = (acc + N.of_nat k)%N) /\
+  ((lim < acc + N.of_nat k)%N -> (lim < mock_cost fuel lim g path n acc)%N).
+Proof.
+  induction fuel as [|f IH]; intros path n k acc Hk; [discriminate|].
+  rewrite mock_path_S in Hk. rewrite mock_cost_S.
+  set (p := n :: path) in *.
+  assert (H : forall es k0 k1 a, fold_left (path_step f g p) es (Some k0) = Some k1 ->
+            exists d, k1 = k0 + d /\
+              ((a + N.of_nat d <= lim)%N -> fold_left (cost_step f lim g p) es a = (a + N.of_nat d)%N) /\
+              ((lim < a + N.of_nat d)%N -> (lim < fold_left (cost_step f lim g p) es a)%N)).
+  { induction es as [|e es IHes]; intros k0 k1 a Hf.
+    - cbn in Hf. inversion Hf. exists 0. split; [lia|]. cbn. split; intros; [lia|lia].
+    - cbn [fold_left] in Hf.
+      (* the three ways an edge adds to the count *)
+      assert (Hone : forall k0', path_step f g p (Some k0) e = Some k0' -> k0' = k0 + 1 ->
+                cost_step f lim g p a e = (if (lim <? a)%N then a else (a + 1)%N) ->
+                exists d, k1 = k0 + d /\
+                  ((a + N.of_nat d <= lim)%N -> fold_left (cost_step f lim g p) (e :: es) a = (a + N.of_nat d)%N) /\
+                  ((lim < a + N.of_nat d)%N -> (lim < fold_left (cost_step f lim g p) (e :: es) a)%N)).
+      { intros k0' Ep -> Ec. rewrite Ep in Hf.
+        destruct (lim <? a)%N eqn:El.
+        - apply N.ltb_lt in El.
+          destruct (IHes (k0 + 1) k1 a Hf) as [d' [-> _]].
+          exists (1 + d'). split; [lia|]. cbn [fold_left]. rewrite Ec.
+          rewrite (cost_fold_saturated f lim g p es a El). split; intros; lia.
+        - apply N.ltb_ge in El.
+          destruct (IHes (k0 + 1) k1 (a + 1)%N Hf) as [d' [-> [H1 H2]]].
+          exists (1 + d'). split; [lia|]. cbn [fold_left]. rewrite Ec. split; intros Hb.
+          + rewrite H1 by lia. lia.
+          + apply H2. lia. }
+      unfold path_step at 2 in Hf. unfold path_step in Hone. unfold cost_step in Hone.
+      destruct (snd e) eqn:Es.
+      + destruct (mem_nat (fst e) p) eqn:Em.
+        * apply (Hone (k0 + 1)); [reflexivity|reflexivity|]. destruct (lim <? a)%N; reflexivity.
+        * clear Hone.
+          destruct (mock_path f g p (fst e)) as [j|] eqn:Ej; [|rewrite path_fold_none in Hf; discriminate].
+          destruct (IH p (fst e) j (a + 1)%N Ej) as [C1 C2].
+          cbn [fold_left]. unfold cost_step at 2 4. rewrite Es, Em.
+          destruct (lim <? a)%N eqn:El.
+          -- apply N.ltb_lt in El.
+             destruct (IHes (k0 + j + 1) k1 a Hf) as [d' [-> _]].
+             exists (j + 1 + d'). split; [lia|].
+             rewrite (cost_fold_saturated f lim g p es a El). split; intros; lia.
+          -- apply N.ltb_ge in El.
+             destruct (N.le_gt_cases (a + 1 + N.of_nat j) lim) as [Hle|Hgt].
+             ++ rewrite (C1 Hle).
+                destruct (IHes (k0 + j + 1) k1 (a + 1 + N.of_nat j)%N Hf) as [d' [-> [H1 H2]]].
+                exists (j + 1 + d'). split; [lia|]. split; intros Hb.
+                ** rewrite H1 by lia. lia.
+                ** apply H2. lia.
+             ++ specialize (C2 Hgt).
+                destruct (IHes (k0 + j + 1) k1 a Hf) as [d' [-> _]].
+                exists (j + 1 + d'). split; [lia|].
+                rewrite (cost_fold_saturated f lim g p es _ C2). split; intros; lia.
+      + apply (Hone (k0 + 1)); [reflexivity|reflexivity|]. destruct (lim <? a)%N; reflexivity. }
+  destruct (H (edges_of g n) 0 k acc Hk) as [d [-> [H1 H2]]]. cbn [Nat.add]. split; assumption.
+Qed.
